@@ -1,4 +1,358 @@
-(* C15 - stub, replaced below *)
-From MV Require Import Common.Num Pure.Penalty.
-Theorem C15_stub : True. Proof. exact I. Qed.
-Print Assumptions C15_stub.
+(* C15 - Penalty methods are zero on the feasible set and follow their formulas.
+   Only statements, each closed by [exact] of a lemma proved in Pure/Penalty_Proofs.v.
+
+   Reading guide.  A nested penalty is the list of its decorated levels (outermost first) over a plain base
+   function; [p_func lg base (l :: r) x] is the value of the outermost level, [p_func lg base r x] the value of the
+   function it decorates.  A level l has kind [lk l], condition [lcond l], multiplier [lmul l] (None = inf),
+   growth factor [lh l], iteration counter [ln l] and stored multiplier history [ly l].
+   Values: [Fin v] finite, [PInf] the documented infinite penalty, [Raises] a ZeroDivisionError of the code
+   itself.  log and x**0.5 are universally quantified functions (with the two facts used about sqrt as premises).
+
+   Full statement of the property's first clause and where it stands on the faithful model (= on /repo):
+     "every penalty type returns exactly the decorated function's value wherever its condition is satisfied and
+      adds a strictly positive amount wherever it is violated"
+   * proved for quadratic/linear/uniform x equality/inequality (C15_zero_on_feasible, C15_positive_on_violation,
+     C15_uniform_inf_on_violation) and for the Lagrange kinds with a zero multiplier history;
+   * REFUTED for barrier_inequality (C15_barrier_zero_on_feasible_refuted, C15_barrier_boundary_refuted),
+     for lagrange_inequality with a stored multiplier (C15_lagrange_ineq_zero_on_feasible_refuted) and for
+     lagrange_equality with a stored multiplier (C15_lagrange_eq_positive_on_violation_refuted); the _partial
+     theorems state what does hold.  These are documented design decisions of mystic (DESIGN F6), listed in
+     known_findings.d/C15.txt. *)
+From Coq Require Import List Reals.
+From MV Require Import Common.Num Common.NumR Pure.Penalty Pure.Penalty_Proofs.
+Import ListNotations.
+Open Scope R_scope.
+
+Notation lvl X := (level NumR X).
+Notation pfun lg X := (p_func NumR lg X).
+Notation "a +x b" := (xadd NumR a b) (at level 50, left associativity).
+Notation FinR := (Fin NumR).
+Notation InfR := (PInf NumR).
+Notation cv := (CV NumR).
+
+(* ------------------------------------------------------------------ value = documented expression, per kind *)
+Theorem C15_quadratic_equality_value : forall (lg : R -> R) (X : Type) base (l : lvl X) r (x : X) k c,
+  lk _ _ l = QuadEq -> lmul _ _ l = Some k -> lcond _ _ l x = cv c ->
+  pfun lg X base (l :: r) x = FinR (k * lh _ _ l ^ ln _ _ l * (c * c)) +x pfun lg X base r x.
+Proof. exact quadratic_equality_value. Qed.
+Print Assumptions C15_quadratic_equality_value.
+
+Theorem C15_linear_equality_value : forall (lg : R -> R) (X : Type) base (l : lvl X) r (x : X) k c,
+  lk _ _ l = LinEq -> lmul _ _ l = Some k -> lcond _ _ l x = cv c ->
+  pfun lg X base (l :: r) x = FinR (k * lh _ _ l ^ ln _ _ l * Rabs c) +x pfun lg X base r x.
+Proof. exact linear_equality_value. Qed.
+Print Assumptions C15_linear_equality_value.
+
+Theorem C15_uniform_equality_value : forall (lg : R -> R) (X : Type) base (l : lvl X) r (x : X) k c,
+  lk _ _ l = UniEq -> lmul _ _ l = Some k -> lcond _ _ l x = cv c ->
+  pfun lg X base (l :: r) x = FinR (if Reqb c 0 then 0 else k * lh _ _ l ^ ln _ _ l) +x pfun lg X base r x.
+Proof. exact uniform_equality_value. Qed.
+Print Assumptions C15_uniform_equality_value.
+
+Theorem C15_uniform_inequality_value : forall (lg : R -> R) (X : Type) base (l : lvl X) r (x : X) k c,
+  lk _ _ l = UniIneq -> lmul _ _ l = Some k -> lcond _ _ l x = cv c ->
+  pfun lg X base (l :: r) x = FinR (if Rltb 0 c then k * lh _ _ l ^ ln _ _ l else 0) +x pfun lg X base r x.
+Proof. exact uniform_inequality_value. Qed.
+Print Assumptions C15_uniform_inequality_value.
+
+(* the inequality types' factor 2 *)
+Theorem C15_quadratic_inequality_value : forall (lg : R -> R) (X : Type) base (l : lvl X) r (x : X) k c,
+  lk _ _ l = QuadIneq -> lmul _ _ l = Some k -> lcond _ _ l x = cv c ->
+  pfun lg X base (l :: r) x = FinR (2 * (k * lh _ _ l ^ ln _ _ l) * (Rmax 0 c * Rmax 0 c)) +x pfun lg X base r x.
+Proof. exact quadratic_inequality_value. Qed.
+Print Assumptions C15_quadratic_inequality_value.
+
+Theorem C15_linear_inequality_value : forall (lg : R -> R) (X : Type) base (l : lvl X) r (x : X) k c,
+  lk _ _ l = LinIneq -> lmul _ _ l = Some k -> lcond _ _ l x = cv c ->
+  pfun lg X base (l :: r) x = FinR (2 * (k * lh _ _ l ^ ln _ _ l) * Rmax 0 c) +x pfun lg X base r x.
+Proof. exact linear_inequality_value. Qed.
+Print Assumptions C15_linear_inequality_value.
+
+(* barrier: -(1/(2 k h^n)) log(-f(x)) inside, +inf where violated and on the boundary; k h^n = 0 is rejected *)
+Theorem C15_barrier_value : forall (lg : R -> R) (X : Type) base (l : lvl X) r (x : X) k c,
+  lk _ _ l = BarIneq -> lmul _ _ l = Some k -> lcond _ _ l x = cv c -> c < 0 -> k * lh _ _ l ^ ln _ _ l <> 0 ->
+  pfun lg X base (l :: r) x = FinR (- (1 / (2 * (k * lh _ _ l ^ ln _ _ l))) * lg (- c)) +x pfun lg X base r x.
+Proof. exact barrier_value_is_formula. Qed.
+Print Assumptions C15_barrier_value.
+
+Theorem C15_barrier_violation_is_inf : forall (lg : R -> R) (X : Type) base (l : lvl X) r (x : X) c,
+  lk _ _ l = BarIneq -> lcond _ _ l x = cv c -> 0 < c -> pfun lg X base (l :: r) x = InfR.
+Proof. exact barrier_violation_is_inf. Qed.
+Print Assumptions C15_barrier_violation_is_inf.
+
+Theorem C15_barrier_rejects_zero_multiplier : forall (lg : R -> R) (X : Type) base (l : lvl X) r (x : X) k c,
+  lk _ _ l = BarIneq -> lmul _ _ l = Some k -> lcond _ _ l x = cv c -> c <= 0 -> k * lh _ _ l ^ ln _ _ l = 0 ->
+  pfun lg X base (l :: r) x = Raises NumR.
+Proof. exact barrier_rejects_zero_multiplier. Qed.
+Print Assumptions C15_barrier_rejects_zero_multiplier.
+
+(* Lagrange kinds: k h^n f^2 + lam f with the multiplier recurrence lam_{m+1} = lam_m + 2 k h^m f(x_m) *)
+Theorem C15_lagrange_equality_value : forall (lg : R -> R) (X : Type) base (l : lvl X) r (x : X) k c,
+  lk _ _ l = LagEq -> lmul _ _ l = Some k -> lcond _ _ l x = cv c -> finite_upto (ly _ _ l) (ln _ _ l) ->
+  pfun lg X base (l :: r) x =
+    FinR (k * lh _ _ l ^ ln _ _ l * (c * c) + lamF k (lh _ _ l) (ly _ _ l) (ln _ _ l) * c) +x pfun lg X base r x.
+Proof. exact lagrange_eq_value_is_formula. Qed.
+Print Assumptions C15_lagrange_equality_value.
+
+(* k h^n m^2 + beta m, m = max(-beta/(2 k h^n), f), beta_{m+1} = beta_m + 2 k_m max(-beta_m/(2 k_m), f(x_m)) *)
+Theorem C15_lagrange_inequality_value : forall (lg : R -> R) (X : Type) base (l : lvl X) r (x : X) k c,
+  lk _ _ l = LagIneq -> lmul _ _ l = Some k -> lcond _ _ l x = cv c -> finite_upto (ly _ _ l) (ln _ _ l) ->
+  0 < k -> 0 < lh _ _ l ->
+  pfun lg X base (l :: r) x =
+    FinR (lag_ineq_amount (k * lh _ _ l ^ ln _ _ l) (betaF k (lh _ _ l) (ly _ _ l) (ln _ _ l)) c) +x pfun lg X base r x.
+Proof. exact lagrange_ineq_value_is_formula. Qed.
+Print Assumptions C15_lagrange_inequality_value.
+
+Theorem C15_multiplier_stays_nonnegative : forall k h ys n, 0 < k -> 0 < h -> 0 <= betaF k h ys n.
+Proof. exact betaF_nonneg. Qed.
+Print Assumptions C15_multiplier_stays_nonnegative.
+
+(* ------------------------------------------------------------------ zero on the feasible set, positive off it *)
+Theorem C15_zero_on_feasible : forall (lg : R -> R) (X : Type) base (l : lvl X) r (x : X) c,
+  simple (lk _ _ l) -> lcond _ _ l x = cv c -> satisfied (lk _ _ l) c ->
+  (lmul _ _ l <> None \/ lk _ _ l = UniEq \/ lk _ _ l = UniIneq) ->
+  pfun lg X base (l :: r) x = pfun lg X base r x.
+Proof. exact zero_on_feasible. Qed.
+Print Assumptions C15_zero_on_feasible.
+
+Theorem C15_positive_on_violation : forall (lg : R -> R) (X : Type) base (l : lvl X) r (x : X) k c,
+  simple (lk _ _ l) -> lmul _ _ l = Some k -> lcond _ _ l x = cv c -> 0 < k -> 0 < lh _ _ l ->
+  ~ satisfied (lk _ _ l) c ->
+  exists a, 0 < a /\ a = simple_amount (lk _ _ l) (k * lh _ _ l ^ ln _ _ l) c /\
+            pfun lg X base (l :: r) x = FinR a +x pfun lg X base r x.
+Proof. exact positive_on_violation. Qed.
+Print Assumptions C15_positive_on_violation.
+
+Theorem C15_uniform_inf_on_violation : forall (lg : R -> R) (X : Type) base (l : lvl X) r (x : X) c,
+  (lk _ _ l = UniEq \/ lk _ _ l = UniIneq) -> lmul _ _ l = None -> lcond _ _ l x = cv c -> 0 < lh _ _ l ->
+  ~ satisfied (lk _ _ l) c -> pfun lg X base (l :: r) x = InfR +x pfun lg X base r x.
+Proof. exact uniform_inf_on_violation. Qed.
+Print Assumptions C15_uniform_inf_on_violation.
+
+(* Lagrange kinds with a zero multiplier history (iteration 0, nothing stored, or zeros stored) *)
+Theorem C15_lagrange_eq_zero_history : forall (lg : R -> R) (X : Type) base (l : lvl X) r (x : X) k c,
+  lk _ _ l = LagEq -> lmul _ _ l = Some k -> lcond _ _ l x = cv c ->
+  (forall i, (i < ln _ _ l)%nat -> stored NumR (ly _ _ l) i = Some 0) ->
+  pfun lg X base (l :: r) x = FinR (k * lh _ _ l ^ ln _ _ l * (c * c)) +x pfun lg X base r x.
+Proof. exact lagrange_eq_zero_history. Qed.
+Print Assumptions C15_lagrange_eq_zero_history.
+
+Theorem C15_lagrange_ineq_zero_history : forall (lg : R -> R) (X : Type) base (l : lvl X) r (x : X) k c,
+  lk _ _ l = LagIneq -> lmul _ _ l = Some k -> lcond _ _ l x = cv c -> 0 < k -> 0 < lh _ _ l ->
+  (forall i, (i < ln _ _ l)%nat -> stored NumR (ly _ _ l) i = Some 0) ->
+  pfun lg X base (l :: r) x = FinR (k * lh _ _ l ^ ln _ _ l * (Rmax 0 c * Rmax 0 c)) +x pfun lg X base r x.
+Proof. exact lagrange_ineq_zero_history. Qed.
+Print Assumptions C15_lagrange_ineq_zero_history.
+
+(* what holds for the Lagrange kinds with arbitrary finite multipliers *)
+Theorem C15_lagrange_eq_zero_on_feasible : forall (lg : R -> R) (X : Type) base (l : lvl X) r (x : X) k,
+  lk _ _ l = LagEq -> lmul _ _ l = Some k -> lcond _ _ l x = cv 0 -> finite_upto (ly _ _ l) (ln _ _ l) ->
+  pfun lg X base (l :: r) x = pfun lg X base r x.
+Proof. exact lagrange_eq_zero_on_feasible. Qed.
+Print Assumptions C15_lagrange_eq_zero_on_feasible.
+
+(* partial: missing = the case where the multiplier points against the violation (lam * f(x) < 0) *)
+Theorem C15_lagrange_eq_positive_on_violation_partial : forall (lg : R -> R) (X : Type) base (l : lvl X) r (x : X) k c,
+  lk _ _ l = LagEq -> lmul _ _ l = Some k -> lcond _ _ l x = cv c -> finite_upto (ly _ _ l) (ln _ _ l) ->
+  0 < k -> 0 < lh _ _ l -> c <> 0 -> 0 <= lamF k (lh _ _ l) (ly _ _ l) (ln _ _ l) * c ->
+  exists a, 0 < a /\ pfun lg X base (l :: r) x = FinR a +x pfun lg X base r x.
+Proof. exact lagrange_eq_positive_on_violation_partial. Qed.
+Print Assumptions C15_lagrange_eq_positive_on_violation_partial.
+
+Theorem C15_lagrange_eq_positive_on_violation_refuted : forall (lg : R -> R) (X : Type) (x : X),
+  exists (l : lvl X) c, lk _ _ l = LagEq /\ lcond _ _ l x = cv c /\ ~ satisfied LagEq c /\
+    pfun lg X (zero_base NumR X) [l] x = FinR (- (1 / 2)).
+Proof. exact lagrange_eq_positive_on_violation_refuted. Qed.
+Print Assumptions C15_lagrange_eq_positive_on_violation_refuted.
+
+Theorem C15_lagrange_ineq_positive_on_violation : forall (lg : R -> R) (X : Type) base (l : lvl X) r (x : X) k c,
+  lk _ _ l = LagIneq -> lmul _ _ l = Some k -> lcond _ _ l x = cv c -> finite_upto (ly _ _ l) (ln _ _ l) ->
+  0 < k -> 0 < lh _ _ l -> 0 < c ->
+  exists a, 0 < a /\ pfun lg X base (l :: r) x = FinR a +x pfun lg X base r x.
+Proof. exact lagrange_ineq_positive_on_violation. Qed.
+Print Assumptions C15_lagrange_ineq_positive_on_violation.
+
+(* partial: on the feasible set the added amount is never positive (missing: it is zero) *)
+Theorem C15_lagrange_ineq_zero_on_feasible_partial : forall (lg : R -> R) (X : Type) base (l : lvl X) r (x : X) k c,
+  lk _ _ l = LagIneq -> lmul _ _ l = Some k -> lcond _ _ l x = cv c -> finite_upto (ly _ _ l) (ln _ _ l) ->
+  0 < k -> 0 < lh _ _ l -> c <= 0 ->
+  exists a, a <= 0 /\ pfun lg X base (l :: r) x = FinR a +x pfun lg X base r x.
+Proof. exact lagrange_ineq_zero_on_feasible_partial. Qed.
+Print Assumptions C15_lagrange_ineq_zero_on_feasible_partial.
+
+Theorem C15_lagrange_ineq_zero_on_feasible_refuted : forall (lg : R -> R) (X : Type) (x : X),
+  exists (l : lvl X) c, lk _ _ l = LagIneq /\ lcond _ _ l x = cv c /\ satisfied LagIneq c /\
+    pfun lg X (zero_base NumR X) [l] x = FinR (- (1 / 2)).
+Proof. exact lagrange_ineq_zero_on_feasible_refuted. Qed.
+Print Assumptions C15_lagrange_ineq_zero_on_feasible_refuted.
+
+(* barrier: refuted on the interior (wherever log(-f(x)) <> 0) and on the boundary; partial: zero where log(-f(x)) = 0 *)
+Theorem C15_barrier_zero_on_feasible_refuted : forall (lg : R -> R) (X : Type) (x : X) (a : R),
+  0 < a -> lg a <> 0 ->
+  exists (l : lvl X) c, lk _ _ l = BarIneq /\ lcond _ _ l x = cv c /\ satisfied BarIneq c /\
+    pfun lg X (zero_base NumR X) [l] x <> zero_base NumR X x.
+Proof. exact barrier_zero_on_feasible_refuted. Qed.
+Print Assumptions C15_barrier_zero_on_feasible_refuted.
+
+Theorem C15_barrier_boundary_refuted : forall (lg : R -> R) (X : Type) (x : X),
+  exists (l : lvl X), lk _ _ l = BarIneq /\ lcond _ _ l x = cv 0 /\ satisfied BarIneq 0 /\
+    pfun lg X (zero_base NumR X) [l] x = InfR.
+Proof. exact barrier_boundary_refuted. Qed.
+Print Assumptions C15_barrier_boundary_refuted.
+
+Theorem C15_barrier_zero_on_feasible_partial : forall (lg : R -> R) (X : Type) base (l : lvl X) r (x : X) k c,
+  lk _ _ l = BarIneq -> lmul _ _ l = Some k -> lcond _ _ l x = cv c -> c < 0 -> k * lh _ _ l ^ ln _ _ l <> 0 ->
+  lg (- c) = 0 -> pfun lg X base (l :: r) x = pfun lg X base r x.
+Proof. exact barrier_zero_on_feasible_partial. Qed.
+Print Assumptions C15_barrier_zero_on_feasible_partial.
+
+(* ------------------------------------------------------------------ error(x) is the violation magnitude *)
+Theorem C15_error_is_violation : forall (sqrt : R -> R) (X : Type),
+  (forall a, 0 <= a -> sqrt a * sqrt a = a) -> (forall a, 0 <= a -> 0 <= sqrt a) ->
+  forall (l : lvl X) (x : X) c, lcond _ _ l x = cv c ->
+  p_error NumR sqrt X [l] x = Some (Rabs (if is_ineq (lk _ _ l) then Rmax 0 c else c)).
+Proof. exact error_is_violation. Qed.
+Print Assumptions C15_error_is_violation.
+
+Theorem C15_error_sq_is_sum_of_squared_violations : forall (sqrt : R -> R) (X : Type),
+  (forall a, 0 <= a -> sqrt a * sqrt a = a) -> (forall a, 0 <= a -> 0 <= sqrt a) ->
+  forall (p : list (lvl X)) (x : X), p <> [] -> Forall (fun l => exists c, lcond _ _ l x = cv c) p ->
+  exists e, p_error NumR sqrt X p x = Some e /\ 0 <= e /\ e * e = viol_sumsq X p x.
+Proof. exact error_sq_is_sum_of_squared_violations. Qed.
+Print Assumptions C15_error_sq_is_sum_of_squared_violations.
+
+Theorem C15_error_inf : forall (sqrt : R -> R) (X : Type) (p : list (lvl X)) (x : X),
+  Exists (fun l => forall c, lcond _ _ l x <> cv c) p -> p_error NumR sqrt X p x = None.
+Proof. exact error_inf. Qed.
+Print Assumptions C15_error_inf.
+
+(* ------------------------------------------------------------------ iter / clear / store through nested penalties *)
+Theorem C15_iter_advances_all_levels : forall (X : Type) (p : pen NumR X),
+  map (ln _ _) (p_iter NumR X None p) = map (fun l => S (ln _ _ l)) p.
+Proof. exact iter_advances_all_levels. Qed.
+Print Assumptions C15_iter_advances_all_levels.
+
+Theorem C15_iter_sets_all_levels : forall (X : Type) (p : pen NumR X) (i : nat),
+  map (ln _ _) (p_iter NumR X (Some i) p) = map (fun _ => i) p.
+Proof. exact iter_sets_all_levels. Qed.
+Print Assumptions C15_iter_sets_all_levels.
+
+Theorem C15_iter_touches_nothing_else : forall (X : Type) (p : pen NumR X) (i : option nat),
+  Forall2 (fun a b => same_params X a b /\ ly _ _ a = ly _ _ b) (p_iter NumR X i p) p.
+Proof. exact iter_touches_nothing_else. Qed.
+Print Assumptions C15_iter_touches_nothing_else.
+
+Theorem C15_clear_resets_all_levels : forall (X : Type) (p : pen NumR X),
+  Forall (fun l => ln _ _ l = 0%nat /\ ly _ _ l = []) (p_clear NumR X p) /\
+  Forall2 (same_params X) (p_clear NumR X p) p.
+Proof. exact clear_resets_all_levels. Qed.
+Print Assumptions C15_clear_resets_all_levels.
+
+Theorem C15_store_touches_only_lagrange_history : forall (X : Type) (p : pen NumR X) (x : X) i,
+  Forall2 (fun a b => same_params X a b /\ ln _ _ a = ln _ _ b /\
+                      (is_lagrange (lk _ _ b) = false -> ly _ _ a = ly _ _ b)) (p_store NumR X x i p) p.
+Proof. exact store_touches_only_lagrange_history. Qed.
+Print Assumptions C15_store_touches_only_lagrange_history.
+
+Theorem C15_store_records : forall (X : Type) (l : lvl X) r (x : X) (i : option nat),
+  is_lagrange (lk _ _ l) = true ->
+  let j := match i with None => ln _ _ l | Some j => j end in
+  exists l' r', p_store NumR X x i (l :: r) = l' :: r' /\ r' = p_store NumR X x (Some j) r /\
+    stored NumR (ly _ _ l') j = yval NumR (lcond _ _ l x) /\
+    forall j', j' <> j -> stored NumR (ly _ _ l') j' = stored NumR (ly _ _ l) j'.
+Proof. exact store_records. Qed.
+Print Assumptions C15_store_records.
+
+Theorem C15_handle_leaves_outer_levels_untouched : forall (X : Type) (f : pen NumR X -> pen NumR X) (p : pen NumR X) lvl,
+  (lvl <= length p)%nat ->
+  firstn lvl (at_level NumR X lvl f p) = firstn lvl p /\ skipn lvl (at_level NumR X lvl f p) = f (skipn lvl p).
+Proof. exact at_level_outer_untouched. Qed.
+Print Assumptions C15_handle_leaves_outer_levels_untouched.
+
+Theorem C15_scripts_preserve_params : forall (X : Type) (ops : list (op X)) (p : pen NumR X),
+  Forall2 (same_params X) (run NumR X ops p) p.
+Proof. exact run_preserves_params. Qed.
+Print Assumptions C15_scripts_preserve_params.
+
+Theorem C15_iter_m_times : forall (X : Type) (m : nat) (p : pen NumR X),
+  map (ln _ _) (run NumR X (repeat (OpIter X 0 None) m) p) = map (fun l => (ln _ _ l + m)%nat) p.
+Proof. exact iter_m_times. Qed.
+Print Assumptions C15_iter_m_times.
+
+Theorem C15_clear_after_any_script : forall (X : Type) (ops : list (op X)) (p : pen NumR X),
+  Forall (fun l => ln _ _ l = 0%nat /\ ly _ _ l = []) (run NumR X (ops ++ [OpClear X 0]) p).
+Proof. exact clear_after_any_script. Qed.
+Print Assumptions C15_clear_after_any_script.
+
+(* ------------------------------------------------------------------ stacked penalties add *)
+Theorem C15_stacked_add : forall (lg : R -> R) (X : Type) base (p : pen NumR X) (x : X) b amts,
+  base x = FinR b -> Forall2 (contributes lg X x) p amts ->
+  pfun lg X base p x = FinR (fold_right Rplus b amts).
+Proof. exact stacked_add. Qed.
+Print Assumptions C15_stacked_add.
+
+Theorem C15_total_is_base_plus_added : forall (lg : R -> R) (X : Type) base (p : pen NumR X) (x : X) b amts,
+  base x = FinR b -> Forall2 (contributes lg X x) p amts ->
+  exists a, p_added NumR lg X p x = FinR a /\ pfun lg X base p x = FinR (a + b).
+Proof. exact total_is_base_plus_added. Qed.
+Print Assumptions C15_total_is_base_plus_added.
+
+Theorem C15_additive_adds : forall (X : Type) (penalty f : X -> xval NumR) (x : X) u v,
+  f x = FinR u -> penalty x = FinR v -> additive NumR X penalty f x = FinR (u + v).
+Proof. exact additive_adds. Qed.
+Print Assumptions C15_additive_adds.
+
+Theorem C15_and_value : forall (lg : R -> R) (X : Type) (members : list (X -> xval NumR)) (vals : list R) (x : X) n ys,
+  Forall2 (fun m v => m x = FinR v) members vals ->
+  forall l, pen_and NumR X members None None None = [l] ->
+  pfun lg X (zero_base NumR X) [mkLevel NumR X (lk _ _ l) (lcond _ _ l) (lmul _ _ l) (lh _ _ l) n ys] x
+    = FinR (1 * 5 ^ n * Rabs (sumR vals) + 0).
+Proof. exact and_value_is_formula. Qed.
+Print Assumptions C15_and_value.
+
+(* ------------------------------------------------------------------ a condition that divides by zero *)
+Theorem C15_div_by_zero_gives_inf : forall (lg : R -> R) (X : Type) base (l : lvl X) r (x : X),
+  lcond _ _ l x = CZeroDiv NumR -> pfun lg X base (l :: r) x = InfR.
+Proof. exact div_by_zero_gives_inf. Qed.
+Print Assumptions C15_div_by_zero_gives_inf.
+
+Theorem C15_div_by_zero_any_depth : forall (lg : R -> R) (X : Type) base (outer : pen NumR X) (l : lvl X) r (x : X),
+  Forall (in_scope X x) outer -> lcond _ _ l x = CZeroDiv NumR ->
+  pfun lg X base (outer ++ l :: r) x = InfR.
+Proof. exact div_by_zero_any_depth. Qed.
+Print Assumptions C15_div_by_zero_any_depth.
+
+(* ------------------------------------------------------------------ constraints.as_penalty *)
+Theorem C15_as_penalty_value : forall (lg sqrt : R -> R), (forall a, 0 <= a -> sqrt a * sqrt a = a) ->
+  forall (constraint : list R -> list R) (x : list R) (n : nat) ys,
+  length (constraint x) = length x ->
+  forall l, as_penalty NumR sqrt constraint None None None = [l] ->
+  pfun lg (list R) (zero_base NumR (list R)) [mkLevel NumR (list R) (lk _ _ l) (lcond _ _ l) (lmul _ _ l) (lh _ _ l) n ys] x
+    = FinR (100 * 5 ^ n * sqdistR (constraint x) x + 0).
+Proof. exact as_penalty_value_is_formula. Qed.
+Print Assumptions C15_as_penalty_value.
+
+Theorem C15_as_penalty_zero_iff_fixed_point : forall (constraint : list R -> list R) (x : list R) (n : nat),
+  length (constraint x) = length x ->
+  (100 * 5 ^ n * sqdistR (constraint x) x + 0 = 0 <-> constraint x = x) /\
+  (constraint x <> x -> 0 < 100 * 5 ^ n * sqdistR (constraint x) x + 0).
+Proof. exact as_penalty_zero_iff_fixed_point. Qed.
+Print Assumptions C15_as_penalty_zero_iff_fixed_point.
+
+(* ------------------------------------------------------------------ non-vacuity *)
+(* the hypotheses of the theorems above are met by concrete, non-trivial instances:
+   - a 3-level nest (quadratic_equality over lagrange_inequality over barrier_inequality), every level in scope,
+     with finite multiplier histories, contributing finite amounts;
+   - sqrt hypotheses: satisfied by the standard library's R_sqrt.sqrt;
+   - a violated and a satisfied condition for the simple kinds. *)
+Example C15_nonvacuous_sqrt :
+  (forall a, 0 <= a -> R_sqrt.sqrt a * R_sqrt.sqrt a = a) /\ (forall a, 0 <= a -> 0 <= R_sqrt.sqrt a).
+Proof. split; intros a Ha; [apply R_sqrt.sqrt_sqrt; exact Ha | apply R_sqrt.sqrt_pos]. Qed.
+
+Example C15_nonvacuous_scope :
+  let l1 : lvl nat := mkLevel NumR nat QuadEq (fun _ => cv 3) (Some 2) 5 1 [] in
+  let l2 : lvl nat := mkLevel NumR nat LagIneq (fun _ => cv (-1)) (Some 20) 5 2 [Some 1; Some 0] in
+  let l3 : lvl nat := mkLevel NumR nat BarIneq (fun _ => cv (-2)) (Some 100) 5 0 [] in
+  Forall (in_scope nat 0%nat) [l1; l2; l3] /\ simple (lk _ _ l1) /\ ~ satisfied (lk _ _ l1) 3 /\
+  satisfied (lk _ _ l2) (-1) /\ finite_upto (ly _ _ l2) (ln _ _ l2).
+Proof. exact nonvacuous_scope. Qed.
